@@ -391,7 +391,7 @@ local function threegen()
   local _, r1 = coroutine.resume(C, 10)
   coroutine.resume(A)
   local ok, r2 = coroutine.resume(C, 20)
-  return tostring(r1) .. ":" .. tostring(ok) .. ":" .. tostring(r2) .. ":" .. coroutine.status(C)
+  return tostring(r1) .. "." .. tostring(ok) .. "." .. tostring(r2) .. "." .. coroutine.status(C)
 end
 local function run(id, f, ...)
   mark(id)
